@@ -2,7 +2,7 @@
 import importlib
 
 NAMES = ["named", "templates", "statesig", "leaves", "optimiser", "strhelpers", "parsersrc", "parserseq", "convstr", "hexsrc", "api",
-         "cliresolve", "climain", "clirules", "clisrc", "effectsig", "escapesig"]
+         "cliresolve", "climain", "clirules", "clisrc", "effectsig", "escapesig", "defaults"]
 
 
 def modules():
